@@ -284,6 +284,24 @@ def run(ctx):
         cfg["matcher"], cfg["m2o"] = "naive", rng.random() < 0.3
         cfg["mmetric"], cfg["mthr"] = rng.choice(["IOU", "DSC", "IOU"]), rng.choice([0.05, 0.1, 0.2, 0.25])
         one_case(ctx, cfg, p, r, "chain")
+    # a reference split unevenly into two predictions that BOTH meet a Dice threshold above one half (Dice > 0.5 only means IoU > 1/3:
+    # the "at most one partner above one half" argument holds for IoU alone); one-to-one matching must leave the second one unmatched
+    for _ in range(ctx.scale(25, 250)):
+        n = rng.randint(7, 16)
+        k = n // 2 + rng.randint(0, 1)
+        h = rng.choice([1, 1, 2])
+        ref = np.zeros((h, n + 6), np.uint8); pred = np.zeros((h, n + 6), np.uint8)
+        off = rng.randint(0, 3)
+        ref[:, off:off + n] = 1
+        pred[:, off:off + k] = rng.choice([1, 2]); pred[:, off + k:off + n] = 3
+        if rng.random() < 0.5:
+            ref[:, off + n + 1:off + n + 3] = 2; pred[:, off + n + 1:off + n + 3] = 7
+        cfg = gen_cfg(rng, "unmatched")
+        cfg["matcher"], cfg["m2o"] = "naive", rng.random() < 0.2
+        cfg["mmetric"], cfg["mthr"] = rng.choice(["DSC", "DSC", "IOU"]), rng.choice([0.51, 0.55, 0.6, 0.65])
+        if rng.random() < 0.3:
+            pred, ref = pred.T.copy(), ref.T.copy()
+        one_case(ctx, cfg, pred, ref, "split")
     # the same evaluator object used for several inputs of different dimensionality / dtype / emptiness
     for ch in range(ctx.scale(40, 400)):
         it = rng.choice(["matched", "unmatched", "semantic", "semantic"])
